@@ -195,6 +195,7 @@ func initProperties() {
 				use("ERRSWALLOW", "errors propagate", inPkgs("conv/j2p")),
 				use("NEGPOLARITY", "unknown handling", inPkgs("conv/j2p")),
 				use("NILLOOKUP", "lookups checked", inPkgs("conv/j2p")),
+				use("GROWCOPY", "speculative length re-allocation keeps the payload", nil),
 				use("UNKNOWNSKIP", "disallow option honoured at every lookup", inPkgs("conv/j2p")),
 				use("POOLESCAPE", "result copied out of the pooled buffer", inPkgs("conv/j2p")),
 				use("POOLRESET", "pooled visitor state fully reset", inPkgs("conv/j2p")),
@@ -212,6 +213,7 @@ func initProperties() {
 				use("INPUTRO", "patching confined", protoGeneric),
 				use("KINDEXH", "kind switches exhaustive", protoGeneric),
 				use("RWPAIR", "per-kind primitives in key/value encoders", protoGeneric),
+				use("GROWCOPY", "speculative length re-allocation keeps the payload", nil),
 				use("SWAPBOTH", "multi-set sort permutes old and new nodes together", protoGeneric),
 				use("POOLESCAPE", "Marshal copies out of the pooled buffer", protoGeneric),
 			)},
@@ -332,6 +334,8 @@ func initProperties() {
 			NotDec:  "byte-identity with the reference encoder.",
 			Uses: uses(
 				use("RWPAIR", "reader/writer symmetric", nil),
+				use("GROWCOPY", "speculative length re-allocation keeps the payload", nil),
+				use("VARINTNARROW", "varint lengths bounded before narrowing", nil),
 				use("VARINTTEMPLATE", "varint stages", nil),
 				use("KINDTABLE", "tables = spec", nil),
 				use("ARGSWAP", "arguments in order", protoBinary),
